@@ -35,9 +35,65 @@ def check(ctx: Ctx, rep: Report):
     rep.rule("C05.R1", "configuration values keep their role through every constructor / factory call; pinned probe parameters of search_inverters", 15)
     rep.rule("C05.R2", "the per-request retry counter is reset wherever a request ends", 8)
     rep.rule("C05.R3", "_ensure_lock re-creates the lock and closes the old transport on a changed event loop", 1)
+    rep.rule("C05.R4", "no live timeout survives the end of a request: every callback path that completes or cancels the future has cancelled the timer", 6)
     r1(ctx, rep)
     r2(ctx, rep)
     r3(ctx, rep)
+    r4(ctx, rep)
+
+
+def close_transport_cancels_timer(ctx: Ctx, ci) -> bool:
+    fn = method(ctx, ci, "_close_transport")
+    paths = [p for p in enumerate_paths(ctx.prog, fn, no_raise) if feasible(p)]
+    for p in paths:
+        ok = any((ev.kind == "call" and "timer_cancel" in tags(ev)) or (ev.kind == "test" and chain(ev.node) == ("self", "_timer") and ev.data is False)
+                 for ev in p.events)
+        if not ok:
+            return False
+    return bool(paths)
+
+
+def r4(ctx: Ctx, rep: Report):
+    """A timeout left armed when its request ends fires during a later request and cancels that one early,
+    so the later request does not get the configured timeout / spacing."""
+    prog = ctx.prog
+    for ci in proto_classes(ctx):
+        ct_cancels = close_transport_cancels_timer(ctx, ci)
+        is_stream = any(isinstance(b, str) and b == "asyncio.Protocol" for b in prog.mro(ci))
+        for cb in loop_callbacks(ctx, ci):
+            if cb.name == "_timeout_mechanism":
+                continue     # the firing of the timer itself
+            if is_stream and cb.name == "error_received":
+                continue
+            verdict = {"n": 0, "ok": True, "path": None, "what": ""}
+            for p in protocol_paths(ctx, cb):
+                state = "maybe-live"
+                ended = None
+                for ev in p.events:
+                    t = tags(ev)
+                    if ev.kind == "test" and chain(ev.node) == ("self", "_timer") and ev.data is False:
+                        state = "absent"
+                    if ev.kind == "call" and "timer_cancel" in t:
+                        state = "cancelled"
+                    if ev.kind == "call" and "close_transport" in t:
+                        ended = ended or "the transport is closed (pending future cancelled)"
+                        if ct_cancels:
+                            state = "cancelled"
+                    if ev.kind == "call" and (t & {"fut_set_result", "fut_set_exception", "fut_cancel"}):
+                        ended = ended or norm(ev.node)[:50]
+                    if ev.kind == "stmt" and "store:_timer" in t and isinstance(getattr(ev.node, "value", None), ast.Call):
+                        state = "re-armed"
+                if ended is None or state == "re-armed":
+                    continue
+                verdict["n"] += 1
+                if state == "maybe-live" and verdict["ok"]:
+                    verdict.update(ok=False, path=p, what=ended)
+            if verdict["n"] == 0:
+                continue
+            rep.check(verdict["ok"], "C05.R4", "timer-at-end:%s.%s" % (ci.name, cb.name), cb.loc(),
+                      "%s.%s ends a request only with its timeout cancelled (%d paths)" % (ci.name, cb.name, verdict["n"]),
+                      bad="%s.%s ends the request (%s) but leaves its timeout armed: when it fires during the next request it cancels that request's attempt early, "
+                          "so the next request does not get the configured timeout [path %s]" % (ci.name, cb.name, verdict["what"], verdict["path"].describe(8) if verdict["path"] else ""))
 
 
 def r1(ctx: Ctx, rep: Report):
